@@ -21,6 +21,7 @@ EXPLANATION = (
 
 
 def run(ctx: Ctx) -> None:
+    solvers.rule_emitter_cap(ctx)
     from .c12 import rule_reach_whole_dag
     rule_reach_whole_dag(ctx)
     from ..rules import memo as _memo
@@ -39,6 +40,7 @@ def run(ctx: Ctx) -> None:
 
 
 KNOCKOUTS = [
+    Knockout("emitter-counter-uncapped", "graphiq/solvers/evolutionary_solver.py", sub_once("                    if ind == n_used_emitter and n_used_emitter < n_emitter:", "                    if ind == n_used_emitter:"), "budget.emitter-cap", "without a cap"),
     Knockout("conversion-ops-emitter", "graphiq/backends/stabilizer/functions/local_cliff_equi_check.py", sub_once('            operations_list.append(ops_list[op_index](register=gate[1], reg_type="p"))', '            operations_list.append(ops_list[op_index](register=gate[1], reg_type="e"))'), "move.filters", "str_to_op"),
     Knockout("C5-photon-control", EVO,
              sub_once("            control=circuit.dag.edges[edge0][\"reg\"],\n            control_type=\"e\",\n            target=circuit.dag.edges[edge1][\"reg\"],\n            target_type=\"e\",",
